@@ -221,6 +221,165 @@ def guards(ctx: Ctx):
         ctx.ob("factory.spec-pass-through", where, "the smoother entry, or {} when there is none", "the spec reaches the smoother unchanged", True if seen_spec else None)
 
 
+VALUE_CHANGING = ("clip", "round", "around", "round_", "rint", "abs", "absolute", "fabs", "where", "nan_to_num", "maximum", "minimum", "fmax", "fmin", "floor", "ceil", "trunc", "sqrt", "log", "exp", "cumsum", "sort")
+
+
+def value_changing_wrappers(e: ast.AST):
+    """Operations applied TO the result of a `.smooth(...)` call inside `e` that change its values (None: no smooth() call):
+    elementwise numpy calls / methods of VALUE_CHANGING with the result among their arguments (or as receiver), and
+    arithmetic on it.  Containers, constructors of block collections and dtype-preserving conversions do not."""
+    parent = {}
+    for n in ast.walk(e):
+        for c in ast.iter_child_nodes(n):
+            parent[c] = n
+    calls = [n for n in ast.walk(e) if isinstance(n, ast.Call) and isinstance(n.func, ast.Attribute) and n.func.attr == "smooth"]
+    if not calls:
+        return None
+    out = []
+    for c in calls:
+        node = c
+        while node in parent:
+            p = parent[node]
+            if isinstance(p, ast.Call):
+                tail = u(p.func).split(".")[-1]
+                as_receiver = isinstance(p.func, ast.Attribute) and node is p.func
+                if tail in VALUE_CHANGING and (node in p.args or any(k.value is node for k in p.keywords) or as_receiver):
+                    out.append(u(p)[:120])
+                    break
+                if node is p.func or as_receiver:
+                    node = p
+                    continue
+                if tail in ("asarray", "array", "asanyarray", "ascontiguousarray", "copy", "tuple", "list") or not tail.islower() or tail in ("blocks", "subtotal_rows", "subtotal_columns", "subtotal_values"):
+                    node = p  # conversion / constructor of a block collection: the values are the argument's
+                    continue
+                break  # an unknown call consumes the result: nothing is claimed about it
+            if isinstance(p, ast.Attribute):
+                node = p  # (smooth(x).clip)(...) is handled when the Call is reached; .T / .astype stay value-preserving
+                continue
+            if isinstance(p, (ast.BinOp, ast.UnaryOp)) and not (isinstance(p, ast.UnaryOp) and isinstance(p.op, ast.UAdd)):
+                out.append(u(p)[:120])
+                break
+            if isinstance(p, (ast.List, ast.Tuple, ast.IfExp, ast.Starred, ast.keyword, ast.Subscript)):
+                node = p
+                continue
+            break
+    return out
+
+
+def _columns_orientation(ctx: Ctx, e: ast.expr) -> ast.expr:
+    """The smoothed scale mean is built with MO.COLUMNS (read from SecondOrderMeasures.smoothed_columns_scale_mean): the
+    orientation tests of the formulas it inherits are decided for that orientation, selections distributed and folded."""
+    import copy as _copy
+
+    from ..symex import distribute_attr, fold_consts
+
+    som = ctx.repo.cls(MM, "SecondOrderMeasures")
+    ctor = expand(ctx.repo, som, "smoothed_columns_scale_mean", stop=lambda mm: True)
+    if not (isinstance(ctor, ast.Call) and any(u(a) == "MO.COLUMNS" for a in list(ctor.args) + [k.value for k in ctor.keywords])):
+        return e
+
+    class _Decide(ast.NodeTransformer):
+        def visit_IfExp(self, n):
+            self.generic_visit(n)
+            t = u(n.test).replace("self._orientation", "self.orientation")
+            if t == "self.orientation == MO.ROWS":
+                return n.orelse
+            if t == "self.orientation == MO.COLUMNS":
+                return n.body
+            return n
+
+    return fold_consts(distribute_attr(_Decide().visit(_copy.deepcopy(e))))
+
+
+def _unfold_som_blocks(ctx: Ctx, e: ast.expr) -> ast.expr:
+    """`self._second_order_measures.<measure>.blocks[i][j]` replaced by the formula of that block of that measure's class."""
+    import copy as _copy
+
+    from ..blocks import matrix_templates
+
+    som = ctx.repo.cls(MM, "SecondOrderMeasures")
+
+    class _Unfold(ast.NodeTransformer):
+        def visit_Subscript(self, n):
+            self.generic_visit(n)
+            inner = n.value
+            if not (isinstance(inner, ast.Subscript) and isinstance(n.slice, ast.Constant) and isinstance(inner.slice, ast.Constant)):
+                return n
+            b = inner.value
+            if not (isinstance(b, ast.Attribute) and b.attr == "blocks" and isinstance(b.value, ast.Attribute) and u(b.value.value) == "self._second_order_measures"):
+                return n
+            if ctx.repo.lookup(som, b.value.attr) is None:
+                return n
+            ctor = expand(ctx.repo, som, b.value.attr, stop=lambda mm: True)
+            if not (isinstance(ctor, ast.Call) and isinstance(ctor.func, ast.Name)):
+                return n
+            try:
+                ci = ctx.repo.cls(MM, ctor.func.id)
+            except Exception:
+                return n
+            kind, grid, _g = matrix_templates(ctx.repo, ci)
+            i, j = inner.slice.value, n.slice.value
+            if kind != "grid" or i not in (0, 1) or j not in (0, 1):
+                return n
+            return _copy.deepcopy(grid[i][j])
+
+    out = _copy.deepcopy(e)
+    for _round in range(4):  # to a fixpoint: a block formula refers to the blocks of other measures
+        before = u(out)
+        out = _Unfold().visit(out)
+        if u(out) == before:
+            break
+    return ast.fix_missing_locations(out)
+
+
+class _EraseSmooth(ast.NodeTransformer):
+    def visit_Call(self, n):
+        self.generic_visit(n)
+        if isinstance(n.func, ast.Attribute) and n.func.attr == "smooth" and len(n.args) == 1:
+            return n.args[0]
+        return n
+
+
+def unsmoothed_twins(ctx: Ctx):
+    """A window the smoother refuses (or a dimension it does not smooth) gives the UNSMOOTHED values unchanged: with the
+    smooth() calls erased, a block of a smoothed variant IS the same block of its unsmoothed twin (measure-block
+    references unfolded to their formulas on both sides).  Equal -> held; the twin's block wrapped in a call that
+    rewrites some of its cells -> violated; anything else is not decided here."""
+    import copy as _copy
+
+    from ..symex import fold, fold_consts
+
+    n = 0
+    for cname, twin_name, members in (("_ColumnProportionsSmoothed", "_ColumnProportions", ("_base_values", "_subtotal_rows", "_subtotal_columns", "_intersections")), ("_ScaleMeanSmoothed", "_ScaleMean", ("_proportions",))):
+        ci, tw = ctx.repo.cls(MM, cname), ctx.repo.cls(MM, twin_name)
+        for member in members:
+            if ctx.repo.lookup(ci, member) is None or ctx.repo.lookup(tw, member) is None:
+                continue
+            where = f"{MM}::{cname}.{member}"
+            mine = _unfold_som_blocks(ctx, _EraseSmooth().visit(_copy.deepcopy(fold_consts(fold(expand(ctx.repo, ci, member, stop=lambda mm: mm.name in ("_smoother",)))))))
+            theirs = _unfold_som_blocks(ctx, fold_consts(fold(expand(ctx.repo, tw, member))))
+            if cname == "_ScaleMeanSmoothed":
+                # the smoothed scale mean is a COLUMNS marginal: the twin's branch for that orientation
+                mine, theirs = _columns_orientation(ctx, mine), _columns_orientation(ctx, theirs)
+            pairs = list(zip(mine.elts, theirs.elts)) if isinstance(mine, (ast.List, ast.Tuple)) and isinstance(theirs, (ast.List, ast.Tuple)) and len(mine.elts) == len(theirs.elts) else [(mine, theirs)]
+            for k, (a, b) in enumerate(pairs):
+                n += 1
+                w = where + (f"[{k}]" if len(pairs) > 1 else "")
+                ta, tb = u(a), u(b)
+                if ta == tb:
+                    ctx.held("wiring.unsmoothed-twin", w, "the twin's block, smoothed or as it is", f"{twin_name}.{member}" )
+                    continue
+                wrapped = [c for c in ast.walk(a) if isinstance(c, ast.Call) and c is not a or c is a and isinstance(c, ast.Call)]
+                hit = next((c for c in wrapped if any(u(x) == tb for x in c.args) and u(c.func).split(".")[0].endswith("Subtotal")), None)
+                if hit is not None and isinstance(a, ast.Call) and hit is a:
+                    ctx.violated("wiring.unsmoothed-twin", w, f"{u(hit.func)}(... {tb[:70]} ...)", f"{tb[:110]} (the block of {twin_name})",
+                                 "the smoothed variant starts from another block than its unsmoothed twin (some cells rewritten by the subtotal builder): an invalid window does not return the unsmoothed values unchanged")
+                else:
+                    ctx.note(f"wiring.unsmoothed-twin {w}: not compared ({ta[:60]} / {tb[:60]})") if hasattr(ctx, "note") else None
+    ctx.count("smoothed block / unsmoothed twin pairs", n)
+    ctx.require_min("smoothed block / unsmoothed twin pairs", 5)
+
+
 def wiring(ctx: Ctx):
     e = expand(ctx.repo, ctx.repo.cls(MM, "_SmoothedMeasure"), "_smoother", stop=lambda mm: True)
     ctx.check_expr("wiring.dimension", f"{MM}::_SmoothedMeasure._smoother", e, "Smoother.factory(self._dimensions[-1])", "slice: the smoother is specified on, and typed by, the COLUMNS dimension")
@@ -237,15 +396,33 @@ def wiring(ctx: Ctx):
         (MM, "_ColumnProportionsSmoothed", "_intersections"): f"{W}[1][1] / {B}[1][1]",
         (MM, "_ColumnIndexSmoothed", "blocks"): "NanSubtotals.blocks(self._smoother.smooth(self._column_index), self._dimensions)",
         (MM, "_MeansSmoothed", "blocks"): "NanSubtotals.blocks(self._smoother.smooth(self._cube_measures.cube_means.means), self._dimensions)",
-        (MM, "_ScaleMeanSmoothed", "_proportions"): f"[self._smoother.smooth({SOM}.column_proportions.blocks[0][0]), {SOM}.column_proportions.blocks[0][1]]",
+        (MM, "_ScaleMeanSmoothed", "_proportions"): f"[self._smoother.smooth({W}[0][0] / {B}[0][0]), {W}[0][1] / {B}[0][1]]",
         (SM, "_MeansSmoothed", "base_values"): "self._smoother.smooth(self._cube_measures.cube_means.means)",
     }
     for (short, cname, member), want in spec.items():
         ci = ctx.repo.cls(short, cname)
         e = expand(ctx.repo, ci, member, stop=lambda mm: mm.name in ("_smoother", "_column_index"))
+        if cname == "_ScaleMeanSmoothed":
+            e = _columns_orientation(ctx, e)
         ctx.check_expr("wiring.blocks", f"{short}::{cname}.{member}", e, want, "exactly these blocks are smoothed (series run along the columns axis; inserted columns and intersections are not series)")
         ctx.count("smoothed-variant members")
+        # ... and what smooth() hands back is the block, VERBATIM: a window the smoother refuses returns the unsmoothed
+        # values unchanged, a value-changing operation applied to the result (clamp, rounding, NaN replacement,
+        # arithmetic) changes them all the same - and the smoothed ones are no longer the mean of w unsmoothed ones
+        touched = value_changing_wrappers(e)
+        if touched is None:
+            continue
+        if (cname, member) == ("_ColumnProportionsSmoothed", "_base_values") and touched and all(t.replace(" ", "").startswith("np.clip(") and t.replace(" ", "").count("np.clip(") == 1 for t in touched):
+            full = [n for n in ast.walk(e) if isinstance(n, ast.Call) and u(n.func) == "np.clip"]
+            if all(len(c.args) == 3 and [u(a) for a in c.args[1:]] in (["0.0", "1.0"], ["0", "1"]) for c in full):
+                # base-value proportions (count / base of the same cells) lie in [0, 1]: a clamp to exactly that range changes a mean of them by round-off at most
+                ctx.held("wiring.smoothed-verbatim", f"{short}::{cname}.{member}", "clamped to [0, 1], the range of a base-value proportion", "no value-changing operation on the result of smooth()")
+                continue
+        ctx.ob("wiring.smoothed-verbatim", f"{short}::{cname}.{member}", touched[:1] or "the result of smooth() is the block as it is", "no value-changing operation on the result of smooth()", not touched,
+               "smoothed value = arithmetic mean of the unsmoothed values at t-w+1..t; unsmoothed values unchanged when the window is refused")
     ctx.require_min("smoothed-variant members", 8)
+    if len(value_changing_wrappers(ast.parse("np.clip(s.smooth(x), 0.0, 1.0) + [np.round(s.smooth(x), 12), s.smooth(x) * 1.0, np.nan_to_num(s.smooth(x))]", mode="eval").body) or []) != 4 or value_changing_wrappers(ast.parse("NanSubtotals.blocks(np.asarray(s.smooth(x)), dims)", mode="eval").body):
+        raise AnalysisError("wiring.smoothed-verbatim: the controls are no longer recognised")
     # which BLOCKS of the smoothed column proportions pass through the smoother (whatever the spelling): the series run
     # along the columns axis of the base values and of the inserted rows; inserted columns and intersections are not series
     ci = ctx.repo.cls(MM, "_ColumnProportionsSmoothed")
@@ -275,6 +452,7 @@ def wiring(ctx: Ctx):
                        "inserted columns are not consecutive periods: the scale mean of an inserted column is that of its own (unsmoothed) proportions")
         else:
             ctx.undecided("wiring.smoothed-blocks", where, u(e)[:120], "[smoothed base columns, unsmoothed inserted columns]")
+    unsmoothed_twins(ctx)
     # ... and a smoothed block is NaN only where its unsmoothed twin is: the NaN flags (`diff_rows_nan`, `diff_cols_nan`) a
     # smoothed member hands to a subtotal builder are those of the same member of the unsmoothed class
     twin = ctx.repo.cls(MM, "_ColumnProportions")
